@@ -86,7 +86,13 @@ func (k Keeper) CalculateReward(ctx sdk.Context, addr sdk.AccAddress, id uint64)
 			// Voter info exists for this past dispute
 			addrReporterPower = addrReporterPower.Add(pastVoterInfo.ReporterPower)
 			addrTokenholderPower = addrTokenholderPower.Add(pastVoterInfo.TokenholderPower)
-			userTips, err := k.GetUserTotalTips(ctx, addr, pastId)
+			// the user group's vote weight is the voter's tips as of the block of that round's dispute
+			// (the same lookup the vote itself used), not "tips as of block <dispute id>"
+			pastDispute, err := k.Disputes.Get(ctx, pastId)
+			if err != nil {
+				return math.Int{}, err
+			}
+			userTips, err := k.GetUserTotalTips(ctx, addr, pastDispute.BlockNumber)
 			if err != nil {
 				return math.Int{}, err
 			}
